@@ -12,14 +12,18 @@ CName == <<"plain", "blank", "dash", "empty", "star", "semi", "dollar", "dquote"
 NCl == IF Quick THEN 12 ELSE Len(Classes)
 Lit(i) == StrL(Classes[i])
 \* argument forms: literal, variable holding the literal, computed by concatenation
+\*                 result of a user function, the same in parentheses, a slice element
 ArgE(i, form) == CASE form = "lit" -> Lit(i) [] form = "var" -> Var("v" \o ToString(i)) [] form = "cat" -> Bin("+", Lit(i), StrL(""))
-PreOf(i) == <<Def1("v" \o ToString(i), Lit(i))>>           \* only the variable the case uses
+                   [] form = "call" -> CallE("give", <<Lit(i)>>) [] form = "grp" -> Grp(CallE("give", <<Var("v" \o ToString(i))>>))
+                   [] form = "elem" -> IndexE(Var("sl"), NatLit(1))
+PreOf(i) == <<Def1("v" \o ToString(i), Lit(i)),           \* only the variable the case uses
+              Func("give", <<Param("p", "string")>>, <<"string">>, <<RetS(<<Var("p")>>)>>), Def1("sl", SliceLit("string", <<StrL("zero"), Lit(i)>>))>>
 Dump(stmts, ctx) == IF ctx = "top" THEN stmts ELSE <<Func("run", <<>>, <<>>, stmts), ExprS(CallE("run", <<>>))>>
 \* the working directory holds two files so that an unquoted glob character would show
 World == [fs |-> <<[path |-> "afile", content |-> "x\n"], [path |-> "bfile", content |-> "y\n"]>>, stdin |-> <<>>]
 MkP(id, ctx, pre, ss) == [id |-> id, prog |-> [body |-> pre \o Dump(ss, ctx), world |-> World], check |-> <<"alog">>]
 Mk(id, ctx, ss) == MkP(id, ctx, <<>>, ss)
-Forms == {"lit", "var", "cat"}
+Forms == {"lit", "var", "cat", "call", "grp", "elem"}
 \* one argument of every class and form, as a statement and captured
 One == {MkP("C18/one/" \o CName[i] \o "/" \o f \o "/" \o u \o "/" \o ctx, ctx, PreOf(i),
            IF u = "stmt" THEN <<ExprS(App(<<Stage("pa", <<ArgE(i, f)>>)>>)), Print1(StrL("after"))>>
@@ -29,7 +33,7 @@ One == {MkP("C18/one/" \o CName[i] \o "/" \o f \o "/" \o u \o "/" \o ctx, ctx, P
 Two == {Mk("C18/two/" \o CName[i] \o "-" \o CName[j], "top", <<ExprS(App(<<Stage("pa", <<Lit(i), Lit(j)>>)>>)), Print1(StrL("end"))>>) : i \in 1..NCl, j \in 1..NCl}
 Many == {MkP("C18/many/" \o ToString(n) \o "/" \o ToString(k) \o "/" \o CName[i] \o "/" \o f, "top", PreOf(i),
             <<ExprS(App(<<Stage("pa", [m \in 1..n |-> IF m = k THEN ArgE(i, f) ELSE StrL("p" \o ToString(m))])>>)), Print1(StrL("end"))>>)
-         : n \in 3..5, k \in 1..5, i \in 1..NCl, f \in {"lit", "var"}}
+         : n \in 3..5, k \in 1..5, i \in 1..NCl, f \in {"lit", "var", "call"}}
 ManyLegal == {c \in Many : TRUE}
 \* pipelines of length 1..3, statement and captured, with every exit status of the last (and of an earlier) stage
 Codes == <<"x0", "x1", "x7", "x255", "x256", "x42">>
@@ -46,6 +50,10 @@ Seqs ==
    Mk("C18/seq/stmt-cap", "func", <<ExprS(App(<<Stage("pa", <<StrL("first")>>)>>)), Def(<<"o", "e", "c">>, <<App(<<Stage("pb", <<StrL("x9")>>)>>)>>), PrintS(<<Var("o"), Var("c")>>)>>),
    Mk("C18/seq/noargs", "top", <<ExprS(App(<<Stage("pa", <<>>)>>)), ExprS(App(<<Stage("pa", <<>>), Stage("pb", <<>>), Stage("pc", <<>>)>>)), Def(<<"o", "e", "c">>, <<App(<<Stage("pa", <<>>)>>)>>), PrintS(<<Var("o"), Var("c")>>)>>),
    Mk("C18/seq/computed", "top", <<Def1("n", NatLit(41)), Def1("s", StrL("two words")), ExprS(App(<<Stage("pa", <<Itoa(Bin("+", Var("n"), NatLit(1))), Bin("+", Var("s"), StrL("!")), Bin("+", StrL("pre-"), Itoa(Var("n")))>>)>>))>>),
+   Mk("C18/seq/callargs-pipe-stmt", "top", <<Func("give", <<Param("p", "string")>>, <<"string">>, <<RetS(<<Bin("+", StrL("g "), Var("p"))>>)>>), Def1("v", StrL("x y")),
+        ExprS(App(<<Stage("pa", <<StrL("k"), CallE("give", <<Var("v")>>)>>), Stage("pb", <<CallE("give", <<StrL("2")>>), StrL("z")>>), Stage("pc", <<Grp(CallE("give", <<StrL("3")>>))>>)>>)), Print1(StrL("end"))>>),
+   MkP("C18/seq/callargs-pipe-cap", "func", <<Func("give", <<Param("p", "string")>>, <<"string">>, <<RetS(<<Bin("+", StrL("g "), Var("p"))>>)>>)>>,
+        <<Def(<<"o", "e", "c">>, <<App(<<Stage("pa", <<CallE("give", <<StrL("1")>>)>>), Stage("pb", <<StrL("x5"), CallE("give", <<StrL("2")>>)>>)>>)>>), PrintS(<<Var("o"), Var("c")>>)>>),
    Mk("C18/seq/loop", "top", <<For3(Def1("i", NatLit(0)), CmpE("<", Var("i"), NatLit(3)), Inc("i"), <<Def(<<"o", "e", "c">>, <<App(<<Stage("pa", <<Bin("+", StrL("x"), Itoa(Var("i")))>>)>>)>>), PrintS(<<Var("o"), Var("c")>>)>>)>>),
    Mk("C18/seq/capture-multiline", "top", <<Def(<<"o", "e", "c">>, <<App(<<Stage("pa", <<StrL("l1")>>), Stage("pb", <<StrL("l2")>>)>>)>>), PrintS(<<StrL("["), Var("o"), StrL("]"), LenE(Var("o"))>>)>>),
    Mk("C18/seq/cond-on-code", "func", <<Def(<<"o", "e", "c">>, <<App(<<Stage("pa", <<StrL("x2")>>)>>)>>), IfElse(CmpE("==", Var("c"), NatLit(2)), <<Print1(StrL("two"))>>, <<PrintS(<<StrL("other"), Var("c")>>)>>)>>)}
